@@ -1,13 +1,75 @@
-// the DiffableStr trait with an abstract byte view (same section as in remap.rs; for units that do not include remap.rs)
+// src/text/abstraction.rs: the traits `DiffableStr` and `DiffableStrRef` with their TRAIT-LEVEL contract.  This is the ONE
+// declaration of the two traits and of the byte-view vocabulary (`bytes()`, `toks`, `tok_post`); it is included by
+//   * unit tok  - proves that `impl DiffableStr for str` / `for [u8]` satisfy it (tokens.rs, tokens_bytes.rs),
+//   * unit txt  - the text entry points `TextDiffConfig::diff_lines / diff_words / diff_chars` are generic over
+//                 `T: DiffableStrRef + ?Sized` and see the tokenizers only through this contract (textdiff.rs),
+//   * units rmp / txi - `SliceRemapper` / `TextDiffRemapper` use `len` and `slice` (remap.rs).
+// Needs tokpart.rs (`cat`, `tokens_partition`) before it.
+//
+// What the trait-level contract says (everything a GENERIC caller may rely on):
+//   bytes()                      ghost: the ABSTRACT byte view of the string (str: its UTF-8 bytes, [u8]: the bytes)
+//   tok_shape(kind, toks)        ghost: the shape clause of the tokenizer `kind` (abstract for generic code; each impl
+//                                defines it: line / run / one-char shape, see tokens.rs and tokens_bytes.rs)
+//   tokenize_lines / tokenize_lines_and_newlines / tokenize_words / tokenize_chars
+//                                ensures  the tokens PARTITION the text: tokens_partition(self.bytes(), bytes of the tokens),
+//                                         every token is non-empty,
+//                                         self.tok_shape(<its kind>, res@)
+//   len()                        ensures  res == self.bytes().len()
+//   slice(rng)                   requires rng.start <= rng.end <= self.bytes().len()
+//                                ensures  res.bytes() == self.bytes().subrange(rng.start, rng.end)
+//   as_diffable_str()            ensures  res == self.ds()   (ghost `ds()`: the DiffableStr a reference resolves to)
+// The traits sit OUTSIDE the `verus!` block (attribute syntax `#[verus_verify]` / `#[verus_spec(..)]`): the declarations
+// `fn len(&self) -> usize;` carry their `;` on the signature line, so no ghost line can be spliced between signature
+// and `;`; the attribute form goes on a ghost line *above* the code line.  (Second reason: tools/vx.py names the methods
+// of `impl DiffableStr for [u8]` `DiffableStr::tokenize_*`; a trait inside `verus!` would add a second entry of that name.)
+// The clauses of the tokenizers are written out in the trait (not through `tok_post` below): a spec function that is
+// generic over `T: DiffableStr` cannot be used in the declaration of `DiffableStr` itself (Verus reports a cyclic
+// self-reference, probes/trait_contract_generic_helper_cycle.rs); `tok_post` is the same three clauses for use outside.
+// Dropped with `only=` (nothing under contract calls them): tokenize_unicode_words, tokenize_graphemes (feature
+// `unicode`), as_str, to_string_lossy, ends_with_newline, as_bytes, is_empty.
+verus! {
+
+/// which tokenizer (ghost tag of `tok_shape`)
+pub enum TokKind { Lines, LinesAndNewlines, Words, Chars }
+
+} // verus!
+
 /*@*/ #[verus_verify]
-//@@ item src/text/abstraction.rs :: ^pub trait DiffableStr\b only=fn\s+(len|slice)\(
+//@@ item src/text/abstraction.rs :: ^pub trait DiffableStr\b only=fn\s+(tokenize_lines|tokenize_lines_and_newlines|tokenize_words|tokenize_chars|len|slice)\(
 pub trait DiffableStr: Hash + PartialEq + PartialOrd + Ord + Eq + ToOwned {
     /*@*/ /// ghost: the ABSTRACT byte view of the string (str: its UTF-8 bytes, [u8]: the bytes)
     /*@*/ #[verus_spec] #[verifier::spec]
     /*@*/ fn bytes(&self) -> Seq<u8>;
+    /*@*/ /// ghost: the shape clause of tokenizer `kind` for the token list `toks` of this string
+    /*@*/ #[verus_spec] #[verifier::spec]
+    /*@*/ fn tok_shape(&self, kind: TokKind, toks: Seq<&Self>) -> bool;
+    /// Splits the value into newlines with newlines attached.
+    /*@*/ #[verus_spec(res => ensures
+    /*@*/     tokens_partition(self.bytes(), Seq::new(res@.len(), |i: int| res@[i].bytes())),
+    /*@*/     forall|k: int| 0 <= k < res@.len() ==> (#[trigger] res@[k]).bytes().len() > 0,
+    /*@*/     self.tok_shape(TokKind::Lines, res@))]
+    fn tokenize_lines(&self) -> Vec<&Self>;
 
+    /// Splits the value into newlines with newlines separated.
+    /*@*/ #[verus_spec(res => ensures
+    /*@*/     tokens_partition(self.bytes(), Seq::new(res@.len(), |i: int| res@[i].bytes())),
+    /*@*/     forall|k: int| 0 <= k < res@.len() ==> (#[trigger] res@[k]).bytes().len() > 0,
+    /*@*/     self.tok_shape(TokKind::LinesAndNewlines, res@))]
+    fn tokenize_lines_and_newlines(&self) -> Vec<&Self>;
 
+    /// Tokenizes into words.
+    /*@*/ #[verus_spec(res => ensures
+    /*@*/     tokens_partition(self.bytes(), Seq::new(res@.len(), |i: int| res@[i].bytes())),
+    /*@*/     forall|k: int| 0 <= k < res@.len() ==> (#[trigger] res@[k]).bytes().len() > 0,
+    /*@*/     self.tok_shape(TokKind::Words, res@))]
+    fn tokenize_words(&self) -> Vec<&Self>;
 
+    /// Tokenizes the input into characters.
+    /*@*/ #[verus_spec(res => ensures
+    /*@*/     tokens_partition(self.bytes(), Seq::new(res@.len(), |i: int| res@[i].bytes())),
+    /*@*/     forall|k: int| 0 <= k < res@.len() ==> (#[trigger] res@[k]).bytes().len() > 0,
+    /*@*/     self.tok_shape(TokKind::Chars, res@))]
+    fn tokenize_chars(&self) -> Vec<&Self>;
 
 
 
@@ -27,3 +89,63 @@ pub trait DiffableStr: Hash + PartialEq + PartialOrd + Ord + Eq + ToOwned {
 
 }
 //@@ end
+
+/*@*/ #[verus_verify]
+//@@ item src/text/abstraction.rs :: ^pub trait DiffableStrRef\b
+pub trait DiffableStrRef {
+    /// The type of the resolved [`DiffableStr`].
+    type Output: DiffableStr + ?Sized;
+    /*@*/ /// ghost: the DiffableStr this reference resolves to
+    /*@*/ #[verus_spec] #[verifier::spec]
+    /*@*/ fn ds(&self) -> &Self::Output;
+
+    /// Resolves the reference.
+    /*@*/ #[verus_spec(res => ensures res == self.ds())]
+    fn as_diffable_str(&self) -> &Self::Output;
+}
+//@@ end
+
+verus! {
+
+/// the byte views of a token list
+pub open spec fn toks<T: DiffableStr + ?Sized>(slices: Seq<&T>) -> Seq<Seq<u8>> {
+    Seq::new(slices.len(), |i: int| slices[i].bytes())
+}
+
+/// what every tokenizer of `DiffableStr` ensures (the three clauses of the trait-level contract): the tokens `r`
+/// partition the text `s` (H-TOK of the reconstruction lemmas), are non-empty and have the shape of tokenizer `kind`
+pub open spec fn tok_post<T: DiffableStr + ?Sized>(s: &T, kind: TokKind, r: Seq<&T>) -> bool {
+    &&& tokens_partition(s.bytes(), toks(r))
+    &&& forall|k: int| 0 <= k < r.len() ==> (#[trigger] r[k]).bytes().len() > 0
+    &&& s.tok_shape(kind, r)
+}
+
+proof fn lemma_tokpart_cat_len_ge(t: Seq<Seq<u8>>, n: int)
+    requires 0 <= n <= t.len(), forall|k: int| 0 <= k < t.len() ==> (#[trigger] t[k]).len() > 0,
+    ensures cat(t, 0, n).len() >= n,
+    decreases n
+{
+    if n > 0 { lemma_tokpart_cat_len_ge(t, n - 1); }
+}
+
+/// non-empty tokens that partition a text: there are at most as many tokens as bytes
+pub proof fn lemma_tokpart_count(src: Seq<u8>, t: Seq<Seq<u8>>)
+    requires tokens_partition(src, t), forall|k: int| 0 <= k < t.len() ==> (#[trigger] t[k]).len() > 0,
+    ensures t.len() <= src.len(),
+{
+    lemma_tokpart_cat_len_ge(t, t.len() as int);
+}
+
+//@@ item src/text/abstraction.rs :: ^impl<T: DiffableStr \+ \?Sized> DiffableStrRef for T rw=R0
+impl<T: DiffableStr + ?Sized> DiffableStrRef for T {
+    type Output = T;
+    /*@*/ open spec fn ds(&self) -> &T { self }
+
+    fn as_diffable_str(&self) -> (res: &T)
+    {
+        self
+    }
+}
+//@@ end
+
+} // verus!
